@@ -14,6 +14,10 @@ import copy
 import pickle
 
 import ufl
+import ufl.algorithms.check_restrictions
+import ufl.checks
+import ufl.formatting.ufl2unicode
+import ufl.sorting
 from mc.props.c27_snap import dag_nodes, kind_of
 from ufl import algorithms as A
 from ufl.algorithms import compute_form_data
@@ -268,7 +272,7 @@ def ev_default_restrictions(t, cx):
         return apply_restrictions(t, default_restrictions=dr)
     out = []
     for itg in integrals_of(t):
-        dr = {m: default_restriction_map[itg.integral_type()]}
+        dr = {m: default_restriction_map.get(itg.integral_type())}
         cx.guard("default_restrictions", dr)
         out.append(apply_restrictions(itg, default_restrictions=dr))
     return out[0] if isinstance(t, Integral) else Form(out)
@@ -334,7 +338,7 @@ def ev_analysis(t, cx):
     r.append(cx.step(lambda: repr(A.sort_elements(list(A.extract_unique_elements(t))))))
     r.append(cx.step(lambda: repr(sorted(map(repr, A.extract_type(t, (Coefficient, Argument, Label)))))))
     r.append(cx.step(lambda: (has_type(t, ufl.classes.Grad), has_exact_type(t, ufl.classes.Sum))))
-    r.append(cx.step(lambda: len(list(A.post_traversal(roots_of(t)[0])))))
+    r.append(cx.step(lambda: [len(list(A.post_traversal(e))) for e in roots_of(t)]))
     r.append(cx.step(lambda: repr(ufl.domain.extract_domains(t))))
     return ("value", r)
 
@@ -347,6 +351,7 @@ def ev_signature(t, cx):
         r.append(cx.step(lambda: A.compute_form_signature(t, t._compute_renumbering())))
     else:
         e = roots_of(t)[0]
+        r.append(cx.step(lambda: compute_expression_signature(e, _renumbering(e))))
         r.append(cx.step(lambda: compute_expression_signature(e, _renumbering(e))))
     return ("value", r)
 
@@ -397,7 +402,7 @@ def ev_expr_accessors(t, cx):
         cx.step(lambda: repr(ufl.domain.extract_unique_domain(e))),
         cx.step(lambda: e.geometric_dimension() if hasattr(e, "geometric_dimension") else None),
         cx.step(lambda: ufl.checks.is_cellwise_constant(e)),
-        cx.step(lambda: ufl.checks.is_globally_constant(e)),
+        cx.step(lambda: ufl.checks.is_true_ufl_scalar(e)),
         cx.step(lambda: ufl.checks.is_scalar_constant_expression(e)),
         cx.step(lambda: len({e, e})),
         cx.step(lambda: {e: 1}[e]),
